@@ -152,6 +152,9 @@ type exec struct {
 	layout    string
 	openGates int
 	stuck     string // a harness watchdog fired: the execution is not judged
+	// a call's context was cancelled during the call: the remaining steps are skipped, the transaction is
+	// ended by Rollback
+	cancelledDuring bool
 }
 
 func keysOf(ss []string) [][]byte {
@@ -411,12 +414,38 @@ func (x *exec) doTopo(t string) {
 	}
 }
 
+type ctxKeyT string
+
+// callCtx builds the context of one API call according to the discipline k; done must be called right after
+// the call returned.  cancelled reports whether the context died during the call.
+func (x *exec) callCtx(k ctxKind, call string) (ctx context.Context, done func(), cancelled func() bool) {
+	x.e.r.Count("ctx:"+call+":"+k.String(), 1)
+	switch k {
+	case ctxCancelAfter:
+		c, cancel := context.WithCancel(context.Background())
+		return c, cancel, func() bool { return false }
+	case ctxDeadlineAfter:
+		c := context.WithValue(context.Background(), ctxKeyT("verif"), x.idx)
+		c, cancel := context.WithTimeout(c, time.Hour)
+		return c, cancel, func() bool { return false }
+	case ctxCancelDuring:
+		c, cancel := context.WithCancel(context.Background())
+		var hit atomic.Bool
+		at := 1 + int(x.p.Seed+int64(len(x.res)))%2
+		x.plan.armCancel(at, func() { hit.Store(true); cancel() })
+		return c, func() { x.plan.armCancel(0, nil); cancel() }, hit.Load
+	}
+	return context.Background(), func() {}, func() bool { return false }
+}
+
 // lockCall is one LockKeys call of the subject with the step's options and obstacle.
 func (x *exec) lockCall(st *Step, sr *stepRes) error {
 	ks := st.Keys
 	if !x.p.Pess {
 		lc := kv.NewLockCtx(0, kv.LockAlwaysWait, time.Now())
-		err := x.txn.LockKeys(x.ctx, lc, keysOf(ks)...)
+		cctx, cdone, _ := x.callCtx(st.Ctx%ctxCancelDuring, "LockKeys")
+		err := x.txn.LockKeys(cctx, lc, keysOf(ks)...)
+		cdone()
 		x.touch(ks, "lock-only:"+string(work.Classify(err)))
 		x.event(ks, "lock-only:"+string(work.Classify(err)), nil)
 		return err
@@ -461,7 +490,21 @@ func (x *exec) lockCall(st *Step, sr *stepRes) error {
 		before[k] = x.held[k]
 	}
 	wasAgg := x.txn.IsInAggressiveLockingMode()
-	err := x.txn.LockKeys(x.ctx, lc, keysOf(ks)...)
+	cctx, cdone, chit := x.callCtx(st.Ctx, "LockKeys")
+	err := x.txn.LockKeys(cctx, lc, keysOf(ks)...)
+	cdone()
+	if chit() {
+		// the context died during the call: whatever it returned, the caller treats the call as failed and
+		// ends the transaction by Rollback
+		x.cancelledDuring = true
+		x.e.r.Count("calls_cancelled_during:LockKeys", 1)
+		if err == nil {
+			x.e.r.Count("calls_cancelled_during:LockKeys:returned_nil", 1)
+		}
+	}
+	if err != nil && st.Ctx != ctxBackground {
+		x.e.r.Count("failed_lock_calls_whose_context_was_cancelled_after_return_or_during", 1)
+	}
 	cl := work.Classify(err)
 	if ob != nil {
 		x.endCont(ob, st.ObCommit)
@@ -580,7 +623,9 @@ func (x *exec) step(st *Step) {
 			sr.Result = "skipped"
 			return
 		}
-		txn.RetryAggressiveLocking(x.ctx)
+		cctx, cdone, _ := x.callCtx(st.Ctx, "RetryAggressiveLocking")
+		txn.RetryAggressiveLocking(cctx)
+		cdone()
 		x.aggTry++
 		x.aggEvent("retry")
 	case kAggCancel:
@@ -588,7 +633,9 @@ func (x *exec) step(st *Step) {
 			sr.Result = "skipped"
 			return
 		}
-		txn.CancelAggressiveLocking(x.ctx)
+		cctx, cdone, _ := x.callCtx(st.Ctx, "CancelAggressiveLocking")
+		txn.CancelAggressiveLocking(cctx)
+		cdone()
 		x.lastAgg = "cancel"
 		x.aggEvent("cancel")
 	case kAggDone:
@@ -596,7 +643,9 @@ func (x *exec) step(st *Step) {
 			sr.Result = "skipped"
 			return
 		}
-		txn.DoneAggressiveLocking(x.ctx)
+		cctx, cdone, _ := x.callCtx(st.Ctx, "DoneAggressiveLocking")
+		txn.DoneAggressiveLocking(cctx)
+		cdone()
 		x.lastAgg = "done"
 		x.aggEvent("done")
 	case kLock:
@@ -772,6 +821,10 @@ func (e *env) runProgram(idx int, p *Program) (out outcome) {
 			}
 		}()
 		for i := range p.Steps {
+			if x.cancelledDuring {
+				x.res = append(x.res, stepRes{Step: p.Steps[i].String(), Result: "skipped"})
+				continue
+			}
 			x.step(&p.Steps[i])
 		}
 		if txn.IsInAggressiveLockingMode() {
@@ -796,7 +849,7 @@ func (e *env) runProgram(idx int, p *Program) (out outcome) {
 			_ = txn.Rollback()
 			return
 		}
-		if !p.Commit {
+		if !p.Commit || x.cancelledDuring {
 			err := txn.Rollback()
 			endClass, endErr = work.Classify(err), errStr(err)
 			return
@@ -812,10 +865,22 @@ func (e *env) runProgram(idx int, p *Program) (out outcome) {
 				x.plan.mu.Unlock()
 			}
 		}
-		err := txn.Commit(ctx)
+		cctx, cdone, chit := x.callCtx(p.EndCtx, "Commit")
+		err := txn.Commit(cctx)
+		cdone()
 		endClass, endErr = work.Classify(err), errStr(err)
 		if endOb != nil {
 			x.endCont(endOb, p.EndObCommit)
+		}
+		if chit() {
+			// cancelled during Commit: the caller ends the transaction by Rollback (a no-op error when Commit
+			// had already invalidated it)
+			x.e.r.Count("calls_cancelled_during:Commit", 1)
+			endKind = "commit-cancelled-during+rollback"
+			_ = txn.Rollback()
+		}
+		if err != nil && endClass != work.EUndetermined && p.EndCtx != ctxBackground {
+			x.e.r.Count("commit_failed_definitely_under_a_context_cancelled_after_return_or_during", 1)
 		}
 		if c := (transaction.TxnProbe{KVTxn: txn}).GetCommitter(); !c.IsNil() {
 			isAsync, is1PC = c.IsAsyncCommit(), c.IsOnePC()
@@ -894,8 +959,8 @@ func (e *env) runProgram(idx int, p *Program) (out outcome) {
 	}
 	if len(left) > 0 {
 		endTag := endKind
-		if endKind == "commit" {
-			endTag = "commit:" + string(endClass)
+		if strings.HasPrefix(endKind, "commit") {
+			endTag = endKind + ":" + string(endClass)
 		}
 		seen := map[string]bool{}
 		for _, l := range left {
@@ -934,7 +999,7 @@ func (e *env) runProgram(idx int, p *Program) (out outcome) {
 	calls = u.Log.CallsFrom(x.logStart)
 	r.Count("programs", 1)
 	r.Count("programs:"+cfg.String(), 1)
-	if endKind == "commit" {
+	if strings.HasPrefix(endKind, "commit") {
 		r.Count("end:commit:"+string(endClass), 1)
 		if endClass == work.ENone {
 			switch {
@@ -1198,4 +1263,8 @@ func TestVerifC06(t *testing.T) {
 	r.Floor("committed_2pc", 50)
 	r.Floor("committed_async", 15)
 	r.Floor("committed_1pc", 8)
+	r.Floor("commit_failed_definitely_under_a_context_cancelled_after_return_or_during", 60)
+	r.Floor("failed_lock_calls_whose_context_was_cancelled_after_return_or_during", 150)
+	r.Floor("ctx:RetryAggressiveLocking:cancel-after", 40)
+	r.Floor("calls_cancelled_during:LockKeys", 10)
 }
